@@ -161,11 +161,13 @@ type node struct {
 	savesChk int      // number of store saves already judged by the C02 oracle
 
 	// C06: instance-level pair
-	inst        *instance.Instance
-	shadow      *specqbft.Instance
-	shadowNet   *capNet
-	shadowTimer *specTimer
-	compactOn   bool
+	inst             *instance.Instance
+	shadow           *specqbft.Instance
+	shadowNet        *capNet
+	shadowTimer      *specTimer
+	compactOn        bool
+	decidedCompacted bool // a compaction ran while the instance was decided (containers cleared)
+	uncompared       bool // pair no longer compared after a contained (finding-class) divergence
 }
 
 type poolMsg struct {
